@@ -201,6 +201,20 @@ def part_b(ctx):
             ctx.fail(doc, dict(outcome=o), "the same file given twice was accepted")
         if (o == "ok") != (m[0] == 1):
             ctx.disagree(doc, o, m, "duplicate path outcome differs from the model")
+    # ---- the same file under different spellings of its path (str / Path, "./", "//", only input) ----
+    import pathlib
+
+    dn, bn = os.path.split(p0)
+    spellings = {"dot": os.path.join(dn, ".", bn), "double-slash": dn + "//" + bn, "pathlib": pathlib.Path(p0),
+                 "relative": os.path.relpath(p0, os.getcwd())}
+    for label, alt in spellings.items():
+        for lst in ([p0, alt], [alt, p0]):
+            doc = dict(part="duplicate-path-spelling", spelling=label, first=("plain" if lst[0] is p0 else label))
+            ctx.case(doc, nontrivial=True)
+            ctx.count("duplicate-spelling")
+            o = convert_outcome(lst, out, icfp)
+            if o == "ok" or finished(out):
+                ctx.fail(doc, dict(outcome=o, paths=[str(x) for x in lst]), f"the same file given twice (second spelling: {label}) was accepted")
     # ---- header perturbations ----
     base = [(0, 10), (0, 20)]
     other = [(0, 100), (0, 200)]
@@ -296,14 +310,19 @@ def part_b(ctx):
         if (o == "ok") != (m[0] == 1):
             ctx.disagree(doc, o, m, "reserved-name outcome differs from the model")
     # ---- undeclared filters ----
-    for used, declared_ok in (("PASS", True), ("q10", True), ("q10;zz9", False), ("nope", False)):
-        p = mkfile(d, "uf", [(0, 10, "DP=1", "PASS"), (0, 20, "DP=2", used)])
-        doc = dict(part="filters", used=used)
+    # the filter is used on the first record of the file / on the first record of a later contig / inside
+    places = {"interior": lambda u: [(0, 10, "DP=1", "PASS"), (0, 20, "DP=2", u), (1, 5, "DP=3", "PASS")],
+              "first-record": lambda u: [(0, 10, "DP=1", u), (0, 20, "DP=2", "PASS"), (1, 5, "DP=3", "PASS")],
+              "first-of-contig": lambda u: [(0, 10, "DP=1", "PASS"), (0, 20, "DP=2", "PASS"), (1, 5, "DP=3", u), (1, 9, "DP=3", "PASS")],
+              "last-record": lambda u: [(0, 10, "DP=1", "PASS"), (1, 5, "DP=3", "PASS"), (1, 9, "DP=3", u)]}
+    for used, declared_ok, place in [(u, ok, pl) for (u, ok) in (("PASS", True), ("q10", True), ("q10;zz9", False), ("nope", False)) for pl in places]:
+        p = mkfile(d, "uf", places[place](used))
+        doc = dict(part="filters", used=used, place=place)
         ctx.case(doc, nontrivial=True)
         ctx.count("filters")
         o = convert_outcome([p], out, icfp)
         ids = {"PASS": 0, "q10": 1}
-        m = ctx.model.call(1303, [[0, 1], [[0], [ids.get(x, 50 + j) for j, x in enumerate(used.split(";"))]]])
+        m = ctx.model.call(1303, [[0, 1], [[ids.get(x, 50 + j) for j, x in enumerate(rec[3].split(";"))] for rec in places[place](used)]])
         if not declared_ok and (o == "ok" or finished(out)):
             ctx.fail(doc, dict(outcome=o), f"filter '{used}' used but not declared was accepted")
         if declared_ok and o != "ok":
